@@ -1,3 +1,8 @@
+#ifdef MORFUSE_VERIF
+#include <morfuse/Common/VerifHooks.h>
+void (*mfuse::verif::vmStepHook)(const void*, size_t, size_t, size_t) = nullptr;
+void (*mfuse::verif::vmEndHook)(const void*, size_t) = nullptr;
+#endif
 #include <morfuse/Script/ScriptVM.h>
 #include <morfuse/Script/ScriptThread.h>
 #include <morfuse/Script/ScriptException.h>
@@ -549,6 +554,11 @@ void ScriptVM::Execute(const VarListView& data, const StringResolvable& label)
         // also destroy the VM
     case vmState_e::Destroyed:
         assert(m_Stack.GetIndex() == 0);
+#ifdef MORFUSE_VERIF
+        if (verif::vmEndHook) {
+            verif::vmEndHook(this, m_Stack.GetIndex());
+        }
+#endif
         delete this;
         break;
     default:
@@ -581,6 +591,11 @@ bool ScriptVM::Process(ScriptContext& context, uinttime_t interruptTime)
             }
         }
 
+#ifdef MORFUSE_VERIF
+        if (verif::vmStepHook) {
+            verif::vmStepHook(this, size_t(m_CodePos - m_ScriptClass->GetScript()->GetProgBuffer()), m_Stack.GetIndex(), m_Stack.GetStackSize());
+        }
+#endif
         m_PrevCodePos = m_CodePos;
         const opval_t opcode = ReadOpcodeValue<opval_t>();
         switch (opcode)
